@@ -118,6 +118,13 @@ pub fn cfgs(tier: &str) -> Vec<Cfg> {
             lazer: Some(false),
             ..Default::default()
         },
+        // the lazer-only Classic mod (no legacy bit) on a lazer score
+        Cfg {
+            mods: HD,
+            acronyms: Some("CL".into()),
+            lazer: Some(true),
+            ..Default::default()
+        },
     ];
     if tier == "thorough" {
         v.extend([
